@@ -324,7 +324,7 @@ func cmdCheck(args []string) int {
 			}
 			for i, v := range vcases {
 				r := results[len(pick)+i]
-				confirmed := r.Fail == v.Label || (v.Label == "panic" && r.Panic != "")
+				confirmed := r.Fail == v.Label || (v.Label == "panic" && r.Panic != "") || (v.Label == "deadlock" && strings.HasPrefix(r.Panic, "timeout:"))
 				if !confirmed && (r.Fail != "" || r.Panic != "") && !r.Assume && len(r.Missing) == 0 {
 					// the real build fails the harness on the solver's input too, at another
 					// assertion: still a violation shown by the real code
